@@ -229,6 +229,9 @@ def check_c06(tier: str) -> int:
         lib = rxrig.frame_library(gen, rng, 3 if tier == "quick" else 8)
         nfr = 3 if tier == "quick" else len(lib)
         frames = [rxrig.with_pid(gen, f, 10 + i) for i, f in enumerate(lib[:2] + lib[4:4 + nfr - 2])]
+        # frames without payload (length field 0): a status request echoed by the console, an unknown type with no body
+        frames = [sockrun.build_frame(gen, 0xB0, 0x80, 90, 0x2B if gen == 4 else 0x99, b""),
+                  sockrun.build_frame(gen, 0xB0, 0x80, 91, 0x2D if gen == 4 else 0x77, b"")] + frames
         good_probe = rxrig.with_pid(gen, lib[0], 200)
         rig = rxrig.RxRig(gen)
         try:
